@@ -36,7 +36,7 @@ func init() {
 			"x body x DefaultHeader x fault in {none, serializer error, transport error, torn body, empty body, malformed JSON, deserializer returning (nil, err), missing multipart file}; the returned MonadIO is evaluated 0..3 times via Eval or Subscribe on a handler; " +
 			"a reference request builder gives method/URL/header/body; recorded requests == evaluations; failures surface as Err, never as a panic; non-trivial = >=1 evaluation with >=1 placeholder or an injected fault; distinct = distinct (definition, params, fault, evaluations)",
 		Real:        []string{"network.SimpleAPIDef + APIMake* constructors", "network.SimpleHTTPDef", "net/http.Client", "encoding/json", "mime/multipart", "fpgo.MonadIODef", "fpgo.HandlerDef"},
-		Stub:        []string{"http.RoundTripper (the network)", "response body reader", "serializer / deserializer wrappers (fault injection)", "goroutine scheduler"},
+		Stub:        []string{"http.RoundTripper (the network)", "response body reader (fails once the request context is cancelled, as net/http does)", "serializer / deserializer wrappers (fault injection)", "goroutine scheduler"},
 		Assumptions: []string{"multipart bodies are compared as parsed fields/files because Go map iteration randomises the part order", "path parameter values are drawn from characters that are valid unescaped in a URL path"},
 	})
 }
@@ -135,8 +135,24 @@ func (tr *c17Transport) RoundTrip(req *http.Request) (*http.Response, error) {
 	case "malformed":
 		rc = io.NopCloser(bytes.NewReader([]byte(`{"v": 1, "s": `)))
 	}
+	// like net/http's own transport, the body belongs to the request: once the request's context is
+	// cancelled (or timed out) the connection is gone and reads fail
+	rc = &c17CtxBody{rc: rc, req: req}
 	return &http.Response{StatusCode: 200, Status: "200 OK", Proto: "HTTP/1.1", ProtoMajor: 1, ProtoMinor: 1, Header: http.Header{"Content-Type": {"application/json"}}, Body: rc, Request: req}, nil
 }
+
+type c17CtxBody struct {
+	rc  io.ReadCloser
+	req *http.Request
+}
+
+func (b *c17CtxBody) Read(p []byte) (int, error) {
+	if err := b.req.Context().Err(); err != nil {
+		return 0, err
+	}
+	return b.rc.Read(p)
+}
+func (b *c17CtxBody) Close() error { return b.rc.Close() }
 
 var c17Keys = []string{"id", "name", "kind", "ver"}
 var c17Vals = []string{"42", "abc", "x-y_z", "a.b~c", "A+B", "k=v", "t:1", "u@h", "1,2", "0"}
